@@ -31,7 +31,7 @@ out = ['''
 
 ### 9.1 Independent changes (sub-agents)
 
-Sub-agents, one per claimed property and round, each received only the text
+Sub-agents, one per claimed property and round (eight rounds), each received only the text
 of one property (statement, quantifier, anchors) and a private scratch git
 worktree of /repo - nothing from /verif - and wrote two changes each that
 break the property while the library still imports and the existing suite
@@ -130,6 +130,16 @@ unchanged tree was re-checked on several seeds (tools/precommit.sh).
   uncaught**: it differs from the unchanged library only on replies whose
   decoding depends on charset sniffing (a byte-order mark with no declared
   charset), which §4 C16 leaves unconstrained.
+* **Round 8** (12): 3 missed at first - a deprecated default that is the
+  empty check string `''` (allow all; expressions can now be the empty
+  string at top level), a placeholder key with characters outside
+  `[\\w.-]` in the rule URL, and `C10-vanished-main-early-return`, whose
+  wrong state lasts for exactly ONE decision after a four-step sequence
+  (observations now ask the long-lived enforcer in a rotated order so that
+  every probe gets to be the first decision after an edit, and a directed
+  prefix builds the sequence). The sub-agents reported that in-scope ideas
+  were getting hard to find; several round-7/8 changes are independent
+  rediscoveries of earlier mechanisms.
 * `C11-addcheck-flag-toggle` (round 2) needs an option toggled on a live conf
   between two loads of one enforcer, outside C11's quantifier; the C11 check
   does not generate toggles. The same change makes the merged OR-chain grow on
